@@ -69,6 +69,17 @@ Theorem C15_derived_vector_writable_at_once : forall s h c rn i s' us sid',
 Proof. exact derived_vector_writable_at_once. Qed.
 Print Assumptions C15_derived_vector_writable_at_once.
 
+(* the same for the columns of every table the library builds (constructors, selections, stacking,
+   joins, sorts, aggregates ...): each column owns storage that no other live object - no earlier
+   object, no sibling column, not the table itself - holds; with C15_sole_owner_always_writable it is
+   writable, whatever else is alive *)
+Theorem C15_new_table_columns_are_sole_owners : forall s ht cs chs sids tsid' s' k h i,
+  step_d s (ONewTab ht cs chs sids tsid') = (s', Ok) ->
+  nth_error chs k = Some h -> nth_error sids k = Some i -> i <> EMPTY ->
+  forall h' o', h' <> h -> aget (heap s') h' = Some o' -> sid_of o' <> i.
+Proof. exact derived_table_column_sole_owner. Qed.
+Print Assumptions C15_new_table_columns_are_sole_owners.
+
 (* exact characterisation of the refusals *)
 Theorem C15_refusal_iff : forall s h v us sid',
   Inv_reg s -> getv s h = Some v ->
